@@ -14,7 +14,7 @@ KEEP0 = ['_buffer', 'g_dispatched', 'IDLE', 'CONNECTING', 'CONNECTED', 'protocol
         'state', 'connReq', 'keepalive', 'timer', 'pdu', 'lc_running', 'lc_interval', 'lc_fn', 'lc_owner',
         'tr_aborts', 'tr_closes', 'cleanStart', 'version', 'session', 'resultCode', 'granted']
 KEEP = KEEP0 + ['g_firing', 'id', 'g_base']
-KEEP_API = KEEP0 + ['g_firing', 't_status', 't_fn', 't_arg', 't_owner', 't_delay', 'd_fired', 'd_ok', 'd_val', 'd_owner']        # API calls may draw a packet identifier
+KEEP_API = KEEP0 + ['qos', 'topic', 'retain', 'payload', 'g_firing', 't_status', 't_fn', 't_arg', 't_owner', 't_delay', 'd_fired', 'd_ok', 'd_val', 'd_owner']        # API calls may draw a packet identifier
 
 
 # what releasing held-back publishes never touches in addition: Deferred outcomes, existing timers, request fields
